@@ -30,7 +30,7 @@ SCAL_DIV = ("int", "float", "t0d", "t1")
 @st.composite
 def strategy_case(draw):
     op = draw(st.sampled_from(["add", "sub", "mul"] * 4 + ["sadd", "ssub", "smul", "radd", "rsub", "rmul", "sdiv",
-                                                          "neg", "pos", "kron", "kron_none", "full", "factory"]))
+                                                          "neg", "pos", "kron", "kron_none", "full", "factory", "factory", "factory"]))
     if op == "factory":
         which = draw(st.sampled_from(["ones", "zeros", "eye", "rank1TT", "meshgrid", "ones_ttm", "zeros_ttm",
                                       "rank1TT_ttm"]))
